@@ -72,6 +72,13 @@ Theorem C10_selectors : forall xs ss ops,
 Proof. exact selectors_lemma. Qed.
 Print Assumptions C10_selectors.
 
+(** every later propagation d = k * a + c reads exactly the selected numbers *)
+Theorem C10_propagation : forall xs ss ops k c,
+  let r := sel_run ops (rmv_new xs ss) in
+  lin_value k c r == k * spec_value xs ss ops + c /\ lin_err_sq k r == k * k * spec_err_sq xs ss ops.
+Proof. exact propagation_lemma. Qed.
+Print Assumptions C10_propagation.
+
 (** the same, spelled out on a history pre ++ o :: post whose tail has no effective selector of the group *)
 Theorem C10_selectors_last_error : forall xs ss pre o post,
   is_err_sel o = true -> effective ss o = true ->
